@@ -22,8 +22,11 @@ func runShapeCase(c *core.Case) *core.Result {
 	}
 	w := NewWorld(cfg, Monitors{Property: "C10", ReopenID: true, Content: true, Partition: true, Coverage: true}, r, res)
 	w.TraceOn = c.Verbose
-	shape := r.Intn(4)
-	names := []string{"fragmented-freelist", "big-regions", "large-wal-map", "mixed"}
+	shape := r.Intn(5)
+	names := []string{"fragmented-freelist", "big-regions", "large-wal-map", "mixed", "full-file-overflow-area"}
+	if shape == 4 {
+		return runOverflowShape(c, res, names[shape])
+	}
 	done := func() *core.Result {
 		if w.F != nil && w.Tx == nil {
 			f := w.F
@@ -168,5 +171,79 @@ func runShapeCase(c *core.Case) *core.Result {
 	if !w.failed {
 		reopen()
 	}
+	return done()
+}
+
+// runOverflowShape: a bounded file is filled completely; transactions with the
+// overflow area enabled (what the queue uses for ACKs on a full file) then free
+// and overwrite pages, so that free-list / overwrite-map pages live past the
+// maximum size; then close and reopen.
+func runOverflowShape(c *core.Case, res *core.Result, name string) *core.Result {
+	r := c.R
+	ps := []uint32{1024, 4096}[r.Intn(2)]
+	minPages := 64 * 1024 / int(ps)
+	cfg := Config{PageSize: ps, MaxPages: minPages + []int{0, 0, 3, 16}[r.Intn(4)], DiskCap: 2 << 20, InitMetaArea: []uint32{0, 0, 2}[r.Intn(3)], SyncMode: r.Intn(3)}
+	w := NewWorld(cfg, Monitors{Property: "C10", ReopenID: true, Content: true, Partition: true}, r, res)
+	w.TraceOn = c.Verbose
+	done := func() *core.Result {
+		if w.F != nil && w.Tx == nil {
+			f := w.F
+			w.guard("File.Close(final)", func() { f.Close() })
+		}
+		res.Key = fmt.Sprintf("shape-%s-%s", name, w.Key())
+		res.Nontrivial = w.Commits >= 2 && w.Reopens >= 1
+		res.Add("shape_"+name, 1)
+		res.Add("reopens", int64(w.Reopens))
+		res.Add("commits", int64(w.Commits))
+		return res
+	}
+	if !w.Open() {
+		return done()
+	}
+	// fill the file completely
+	for round := 0; round < 400; round++ {
+		before := len(w.Committed.Pages)
+		if !w.Begin(txfile.TxOptions{}) || !w.Alloc(1+r.Intn(8), 1) || !w.End(OCommit) {
+			return done()
+		}
+		if len(w.Committed.Pages) == before {
+			break
+		}
+	}
+	for round := 0; round < 3+r.Intn(4); round++ {
+		// cleanup style transaction: frees a few pages, overwrites some, overflow area enabled
+		if !w.Begin(txfile.TxOptions{EnableOverflowArea: true, WALLimit: uint([]int{0, 3, 1000}[r.Intn(3)])}) {
+			return done()
+		}
+		for i := 0; i < 1+r.Intn(3); i++ {
+			if cf := w.candFree(); len(cf) > 2 {
+				if !w.Free(cf[r.Intn(len(cf))]) {
+					return done()
+				}
+			}
+		}
+		for i := 0; i < r.Intn(4); i++ {
+			if cw := w.candWrite(); len(cw) > 0 {
+				if !w.Write(cw[r.Intn(len(cw))], 0, 0) {
+					return done()
+				}
+			}
+		}
+		if !w.End(OCommit) {
+			return done()
+		}
+		s := w.F.VerifSnapshot()
+		if uint(s.MetaEnd) > s.MaxPages {
+			res.Add("states_with_overflow_pages_in_use", 1)
+		}
+		if !w.Reopen() {
+			return done()
+		}
+		// refill what was freed, so the file is full again
+		if !w.Begin(txfile.TxOptions{}) || !w.Alloc(1+r.Intn(3), 1) || !w.End(OCommit) {
+			return done()
+		}
+	}
+	w.Reopen()
 	return done()
 }
